@@ -4,26 +4,29 @@ from vc.gen import Fn, Unit
 from contracts import core
 from contracts import C05 as c05
 from contracts import C01 as c01
+from contracts import C01solve as s1
 
 PRE = ('fax_l0', 'fmeth', 'stdspec', 'l1')
 BC = ('l0', 'l1_arith', 'ax_vec_from_refl', 'ax_f64_cloned')
 U = 'linalg::utils::'
 P = 'predict::polynomial::'
 
-SPEC = c05.SPEC + r'''
+SPEC = c05.SPEC + s1.SPEC + s1.SYS_SPEC + s1.INV_SPEC + r'''
 /// V[r, i] = x_r ^ i  for i < n
 pub open spec fn is_vandermonde(vm: Seq<f64>, x: Seq<f64>, n: int) -> bool {
     vm.len() == x.len() * n && forall|r: int, i: int| 0 <= r < x.len() && 0 <= i < n ==> #[trigger] at2(vm, n, r, i) == f_powi(x[r], i as i32)
 }
-/// result of invert_matrix, abstract here (its accuracy is property C01)
-pub uninterp spec fn inv_fn(m: Seq<f64>) -> Seq<f64>;
 /// coef solves the normal equations by the composition (V^T V)^{-1} (V^T y)
+pub open spec fn normal_eq_witness(coef: Seq<f64>, x: Seq<f64>, y: Seq<f64>, p: int, v: Seq<f64>, g: Seq<f64>, ginv: Seq<f64>, xty: Seq<f64>) -> bool {
+    is_vandermonde(v, x, p)
+    && is_product(g, v, p, true, v, p, false, p, x.len() as int, p)
+    && is_product(xty, v, p, true, y, 1, false, p, x.len() as int, 1)
+    && inverse_of(g, p, ginv)
+    && is_product(coef, ginv, p, false, xty, 1, false, p, p, 1)
+}
+/// coef = (V^T V)^{-1} (V^T y): the normal equations solved through the inverse computed by invert_matrix (column c of it solves (V^T V) z = e_c)
 pub open spec fn normal_eq_composition(coef: Seq<f64>, x: Seq<f64>, y: Seq<f64>, p: int) -> bool {
-    exists|v: Seq<f64>, g: Seq<f64>, xty: Seq<f64>| #![trigger is_vandermonde(v, x, p), is_product(g, v, p, true, v, p, false, p, x.len() as int, p), is_product(xty, v, p, true, y, 1, false, p, x.len() as int, 1)]
-        is_vandermonde(v, x, p)
-        && is_product(g, v, p, true, v, p, false, p, x.len() as int, p)
-        && is_product(xty, v, p, true, y, 1, false, p, x.len() as int, 1)
-        && is_product(coef, inv_fn(g), p, false, xty, 1, false, p, p, 1)
+    exists|v: Seq<f64>, g: Seq<f64>, ginv: Seq<f64>, xty: Seq<f64>| #[trigger] normal_eq_witness(coef, x, y, p, v, g, ginv, xty)
 }
 '''
 vandermonde = Fn(U + 'vandermonde', ret='vm', level='L0', attrs=['#[verifier::loop_isolation(false)]'],
@@ -43,9 +46,6 @@ xtx = Fn(U + 'xtx', ret='r', level='L1', valid='(x@.len() as int) % (k as int) =
          requires=['C14.xtx.machine:: k > 0 && x@.len() <= 0x7fff_ffff && ((x@.len() as int) / (k as int)) * ((x@.len() as int) / (k as int)) <= 0x7fff_ffff'],
          ensures=['C14.xtx.valid:: (x@.len() as int) % (k as int) == 0',
                   'C14.xtx.product:: is_product(r@, x@, (x@.len() as int) / (k as int), true, x@, (x@.len() as int) / (k as int), false, (x@.len() as int) / (k as int), k as int, (x@.len() as int) / (k as int))'])
-invert_matrix = Fn(U + 'invert_matrix', ret='r', level='A', valid='exists|k: int| 0 <= k && #[trigger] (k * k) == matrix@.len()',
-                   ensures=['A.invert_matrix:: r@ == inv_fn(matrix@) && r@.len() == matrix@.len()'])
-
 poly_struct = P + '{struct PolynomialRegressor}'
 update = Fn(P + '{impl PolynomialRegressor}::update', ret='r', level='L0',
             ensures=['C14.update:: r.coef@ == params@', 'C14.update.ret:: *final(r) == *final(self)'])
@@ -59,12 +59,12 @@ fit = Fn(P + '{impl PolynomialRegressor}::fit', ret='r', level='L1', valid='x@.l
                 ('let coeffs =', 'before', 'proof { assert(xty@.len() == p_ * 1); lemma_mul_div(p_, p_); assert((xtxinv@.len() as int) / p_ == p_); assert((xty@.len() as int) / p_ == 1); }'),
                 ('self.update(&coeffs)', 'before',
                  'proof { assert(is_vandermonde(xv@, x@, p_)); assert(is_product(xtx@, xv@, p_, true, xv@, p_, false, p_, x@.len() as int, p_)); '
-                 'assert(is_product(xty@, xv@, p_, true, y@, 1, false, p_, x@.len() as int, 1)); assert(is_product(coeffs@, inv_fn(xtx@), p_, false, xty@, 1, false, p_, p_, 1)); '
-                 'assert(normal_eq_composition(coeffs@, x@, y@, p_)); }')])
+                 'assert(is_product(xty@, xv@, p_, true, y@, 1, false, p_, x@.len() as int, 1)); assert(inverse_of(xtx@, p_, xtxinv@)); assert(is_product(coeffs@, xtxinv@, p_, false, xty@, 1, false, p_, p_, 1)); '
+                 'assert(normal_eq_witness(coeffs@, x@, y@, p_, xv@, xtx@, xtxinv@, xty@)); }')])
 
 UNITS = [
-    Unit('C14_poly', 'C14', [vandermonde, xtx, update, fit], use=[c05.matmul, invert_matrix, c01.is_square], types=core.TYPES + [poly_struct], type_spec=core.TYPE_SPEC,
-         spec=SPEC, preludes=PRE, broadcast=BC, level='L1', rlimit=100, also=['C04_reductions', 'C11_lu', 'C01_predicates'],
+    Unit('C14_poly', 'C14', [vandermonde, xtx, update, fit], use=[c05.matmul, s1.invert, c01.is_square], types=core.TYPES + [poly_struct], type_spec=core.TYPE_SPEC,
+         spec=SPEC, preludes=PRE, broadcast=BC, level='L1', rlimit=100, 
          notes='Vandermonde entries x_r^i; fit = (V^T V)^{-1}(V^T y) as a composition of the matmul contract with invert_matrix abstract; '
                'the units behind invert_matrix (dot, LU, symmetry routing) are run as part of this check'),
 ]
